@@ -169,7 +169,9 @@ GRAPH_URL_LINES = ["%include etc:local.conf", "%include mailto:x", "%include htt
                    "%include package:ZConfig", "%include package::x", "%include package:os:x",
                    "%include package:ZConfig:nosuch.xml", "%include file://nohost/x", "%include ftp://",
                    "%include a.conf#frag", "%include file:b.conf", "%include FILE:c.conf",
-                   "%define u http://[", "%include $u"]
+                   "%define u http://[", "%include $u",
+                   "%include http://h:abc/x", "%include https://h:abc/x", "%include http://a b/x",
+                   "%include http://user:pw@h/x"]
 
 
 def gen_graph(rng, sm):
